@@ -230,6 +230,19 @@ def run(pid, tier, seed, replay, t0):
             driver_ok = False
         if not broken_theorems:
             broken_theorems.append({'theorem': None, 'file': None, 'line': None, 'msg': b['tail'][-600:]})
+    # 2b. thorough tier: independent re-check of the compiled property modules (and the lemma modules they import)
+    recheck = None
+    if tier == 'thorough' and b['ok']:
+        mods = list(targets)
+        for tmod in targets:
+            src = open(os.path.join(LEAN, *tmod.split('.')) + '.lean').read()
+            mods += re.findall(r'^import (PaneModel\.(?:Lemmas|Spec|Model)\.\S+)', src, re.M)
+        mods = sorted(set(mods))
+        rc_, so_, se_ = sh(['lake', 'env', 'leanchecker'] + mods, cwd=LEAN, timeout=1800)
+        recheck = {'cmd': 'cd lean && lake env leanchecker ' + ' '.join(mods), 'rc': rc_, 'tail': (so_ + se_)[-400:]}
+        if rc_ != 0:
+            broken_theorems.append({'theorem': None, 'file': None, 'line': None, 'msg': 'leanchecker rejected the compiled modules: ' + recheck['tail']})
+            b['ok'] = False
     # 3. audit
     bad_axioms = {n: ax for n, ax in b['axioms'].items() if n in theorems and not set(ax) <= ALLOWED_AXIOMS}
     missing_axiom_lines = [n for n in theorems if n not in b['axioms']] if b['ok'] else []
@@ -297,6 +310,7 @@ def run(pid, tier, seed, replay, t0):
         'known_findings_replayed': [k['id'] for k in w['known']] + corr.get('known_findings', []),
         'notes': notes + corr.get('notes', []),
         'build_wall_s': b['wall_s'],
+        'leanchecker': recheck,
     })
     cov.setdefault('evaluations', 0)
     cov.setdefault('distinct_nontrivial', 0)
